@@ -13,7 +13,7 @@ import (
 
 // initAllow lists non-module packages whose initializers are executed.
 var initAllow = map[string]bool{
-	"errors": true, "io": true, "strconv": true, "bytes": true, "bufio": true, "encoding/binary": true,
+	"io": true, "strconv": true, "bytes": true, "bufio": true, "encoding/binary": true,
 	"container/list": true, "container/heap": true, "sort": true, "context": true, "math": true, "math/bits": true,
 	"unicode/utf8": true, "strings": true, "slices": true, "maps": true, "cmp": true, "io/fs": true,
 	"encoding/hex": true, "encoding/base64": true, "hash": true, "iter": true,
@@ -21,7 +21,7 @@ var initAllow = map[string]bool{
 }
 
 // zeroGlobalsOK lists packages whose globals may be read at their zero value although init is skipped.
-var zeroGlobalsOK = map[string]bool{"sync": true, "sync/atomic": true, "time": true, "unicode/utf8": true, "internal/bytealg": true,
+var zeroGlobalsOK = map[string]bool{"errors": true, "sync": true, "sync/atomic": true, "time": true, "unicode/utf8": true, "internal/bytealg": true,
 	"internal/cpu": true, "runtime": true, "internal/godebug": true, "math/rand": true, "os": true, "fmt": true, "log": true, "unicode": false}
 
 // Load loads the given package directories (relative to repo) with an overlay and builds SSA.
